@@ -83,8 +83,8 @@ func (n *node) inlinedNow() bool {
 // unchanged tree, which are counted: an index slab is stored by every Set below it although its headers
 // are unchanged; a container whose changed element lives in an external collision group or in a
 // referenced slab is re-set in its parent although its own bytes are unchanged; requests that are
-// identities (a type set to itself, a value overwritten by an equal-sized... same value, PopIterate of an
-// empty container) store what was there.
+// identities (a type set to itself, a value overwritten by an equal one, PopIterate of an empty
+// container) store what was there.
 var sameBytesClean = map[string]bool{"ains:own": true, "arem:own": true}
 
 // closeStores applies the two oracles to the request whose effects were just emitted.
